@@ -480,6 +480,10 @@ class SnoopingTransport(Transport):
             if self.sink:
                 self.sink.on_packet(packet)
 
+        def on_transport_lost(self) -> None:
+            if self.sink and hasattr(self.sink, 'on_transport_lost'):
+                self.sink.on_transport_lost()
+
     class Sink:
         def __init__(self, sink: TransportSink, snooper: Snooper) -> None:
             self.sink = sink
